@@ -800,12 +800,14 @@ def units():
             LemmaUnit("lemma:C02-inv", lemma_c02_inv),
             LeanUnit("lemma:L-PERM", "lemmas/LPerm.lean", ["run_eq_of_linear_extensions"]),
             LeanUnit("lemma:L-TOPO", "lemmas/LTopo.lean", ["pairwise_of_respects"])] \
-        + __import__("contracts.c02assign", fromlist=["units"]).units() + with_block_units()
+        + __import__("contracts.c02assign", fromlist=["units"]).units() + with_block_units() \
+        + __import__("contracts.stmtinit", fromlist=["units"]).units(PROP)     # depends_on is recorded as given
 
 
 LEVEL = "proof"
 BOUNDED = {"quick": {"timeout_s": 90}, "thorough": {"timeout_s": 900}}
 TRUSTED_BASE = [
+    __import__("contracts.stmtinit", fromlist=["TRUSTED"]).TRUSTED,
     "A-FMT: '%s_%d' % (name, k) is injective in k (statement ids of one builder are distinct)",
     "A-GEN: pytools.generate_unique_names(prefix) is an infinite stream; A-PARSE: dagrt.expression.parse takes a string",
     "A-DEP on LogicalAnd / LogicalNot / Variable: variables of the children (pymbolic DependencyMapper)",
